@@ -29,7 +29,7 @@ from beanquery.parser import ast  # noqa: E402
 from beanquery.parser import parser as tatsu_parser  # noqa: E402
 from beanquery.query_execute import execute_print  # noqa: E402
 from beancount import loader  # noqa: E402
-from beancount.core import account_types, data, inventory, position as bposition  # noqa: E402
+from beancount.core import account_types, data, getters, inventory, position as bposition  # noqa: E402
 from beancount.parser import parser as bparser, booking, printer  # noqa: E402
 
 D = decimal.Decimal
@@ -499,10 +499,11 @@ def gen_ledger(rng, idx):
         add(dd, '\n'.join([f'{dd} document {rng.choice(others)} "{TMP}/docs/statement-{idx}.pdf"{tl}'] + ml), 'document')
     for _ in range(rng.randint(0, 2)):
         de = day()
-        add(de, f'{de} event "location" {_q(rng.choice(["Paris, France", "New York", ""]))}', 'event')
+        add(de, f'{de} event "location" {_q(rng.choice(["Paris, France", "New York", "", 'the "Big" one']))}', 'event')
     if rng.random() < 0.6:
         dq = day()
-        add(dq, f'{dq} query "cash" "SELECT account, sum(position) WHERE account ~ \'Cash\'"', 'query')
+        qs = rng.choice(["SELECT account, sum(position) WHERE account ~ 'Cash'", 'SELECT account WHERE account ~ "Cash"'])
+        add(dq, f'{dq} query "cash" {_q(qs)}', 'query')
     for _ in range(rng.randint(1, 4)):
         dp = day()
         add(dp, f'{dp} price HOOL  {D(rng.randint(8000, 22000)) / 100} USD', 'price')
@@ -511,7 +512,8 @@ def gen_ledger(rng, idx):
         add(dp, f'{dp} price USD  1.31 CAD', 'price')
     if rng.random() < 0.7:
         dc = day()
-        add(dc, f'{dc} custom "budget" "weekly" 45.30 USD Expenses:Food 2020-01-01 TRUE 12', 'custom')
+        cs = rng.choice(['weekly', 'the "weekly" one'])
+        add(dc, f'{dc} custom "budget" {_q(cs)} 45.30 USD Expenses:Food 2020-01-01 TRUE 12', 'custom')
     unused = 'Assets:Closed'
     add(d0, f'{d0} open {unused}', 'open')
     dcl = day(5, 900)
@@ -938,7 +940,7 @@ PRINT_FROM = [
     ('NULL', lambda e: False),
     ('FALSE', lambda e: False),
     ("narration ~ 'a'", lambda e: isinstance(e, data.Transaction) and re.search('a', e.narration or '', re.I) is not None),
-    ("has_account('Assets:Cash')", lambda e: isinstance(e, data.Transaction) and any(p.account == 'Assets:Cash' for p in e.postings)),
+    ("has_account('Assets:Cash')", lambda e: 'Assets:Cash' in getters.get_entry_accounts(e)),
     # OPEN / CLOSE / CLEAR: the table is rewritten first (no independent predicate for those)
     ('OPEN ON 2020-01-01', None), ('CLOSE ON 2020-07-01', None), ('CLEAR', None), ('CLOSE', None),
     ('OPEN ON 2020-01-01 CLOSE ON 2021-01-01 CLEAR', None), ('OPEN ON 2020-03-01 CLOSE', None),
@@ -946,7 +948,8 @@ PRINT_FROM = [
     ('OPEN ON 2021-01-01 CLOSE ON 2020-01-01', None),      # CompilationError
     ('nosuchcolumn', None),                                  # CompilationError
     ('sum(year) > 1', None),                                 # aggregates are not allowed in FROM
-    ("meta('note') = 'meta text'", None), ("any_meta('num') = 42", None),
+    ("meta('note') = 'meta text'", lambda e: (e.meta or {}).get('note') == 'meta text'),
+    ("meta('num') = 42", lambda e: (e.meta or {}).get('num') == 42),
 ]
 
 
@@ -1039,7 +1042,7 @@ def check_ledger_print(args):
             if with_shell:
                 if sh is None:
                     sh_out = io.StringIO()
-                    sh = bq_shell.BQLShell(path, sh_out, interactive=False)
+                    sh = bq_shell.BQLShell(path, sh_out, interactive=False, no_errors=True)
                 sh_out.seek(0)
                 sh_out.truncate()
                 sh.onecmd(q)
@@ -1052,41 +1055,81 @@ def check_ledger_print(args):
     return out
 
 
+def diff_class(w, got):
+    """Why is the selected directive w not among the directives read back? -> short class string"""
+    cands = [g for g in got if type(g) is type(w) and g.date == w.date]
+    best = None
+    for g in cands:
+        d = [f for f in w._fields if getattr(w, f) != getattr(g, f)]
+        if best is None or len(d) < len(best[0]):
+            best = (d, g)
+    name = type(w).__name__
+    if best is None or len(best[0]) > 3:
+        strings = [v for v in w if isinstance(v, str)] + [v for v in (getattr(w, 'values', None) or [])
+                                                          if isinstance(getattr(v, 'value', None), str) for v in [v.value]]
+        if any('"' in v for v in strings):
+            return f'{name}:not-read-back:dquote-in-string', None
+        if any('\\' in v for v in strings):
+            return f'{name}:not-read-back:backslash-in-string', None
+        return f'{name}:not-read-back', None
+    d, g = best
+    if d == ['payee'] and w.payee == '' and g.payee is None:
+        return "Transaction.payee:empty-string-read-back-as-None", g
+    if d == ['postings']:
+        pf = sorted({f for pw, pg in zip(w.postings, g.postings) for f in pw._fields if getattr(pw, f) != getattr(pg, f)})
+        if len(w.postings) != len(g.postings):
+            pf = ['count']
+        return f'{name}.postings.{"+".join(pf)}', g
+    return f'{name}.{"+".join(d)}', g
+
+
+def compare_directives(want, got, errors):
+    """-> list of (class, why); empty when got == want (same directives, same order)"""
+    if got == want:
+        return []
+    out = {}
+    for w in want:
+        if w not in got:
+            cls, g = diff_class(w, got)
+            if cls not in out:
+                out[cls] = (f'selected:\n{describe_entry(w)}\n  repr {w!r}\nread back:\n'
+                            + (f'{describe_entry(g)}\n  repr {g!r}' if g is not None else f'nothing; reload errors: {errors[:3]}'))
+    extra = [g for g in got if g not in want]
+    if not out and extra:
+        out['unselected-directive-printed'] = f'read back but not selected: {describe_entry(extra[0])}'
+    if not out:
+        out['order'] = ('the directives read back are the selected ones in a different order: '
+                        + repr([(str(e.date), type(e).__name__) for e in got][:12]))
+    return sorted(out.items())
+
+
 def judge_print(rec, selected_idx):
     """Compare the re-loaded directives with the entries the model selected (indexes into the table)."""
     probs = list(rec['problems'])
     want = [rec['table_entries'][i] for i in selected_idx]
     got = rec['reloaded']
     excluded = 0
-    if not rec['strict'] and len(got) < len(want) and rec['reload_error_entries']:
+    if not rec['strict'] and rec['reload_error_entries']:
         # entries the booking rejected on re-load for lack of context (filtered prints only)
         rejected = rec['reload_error_entries']
         keep = []
         for w in want:
             if w not in got and any(_same_modulo_booking(w, r) for r in rejected):
                 excluded += 1
+                # booking keeps or drops the rejected transaction depending on the error: drop it here
+                got = [g for g in got if not (_same_modulo_booking(w, g) and g not in want)]
             else:
                 keep.append(w)
         want = keep
-    if got != want:
-        if len(got) != len(want):
-            why = f'{len(want)} directives selected, {len(got)} read back'
-        else:
-            i = next(i for i, (x, y) in enumerate(zip(got, want)) if x != y)
-            why = f'directive {i} differs:\n  selected: {describe_entry(want[i])}\n  read back: {describe_entry(got[i])}'
-        missing = [describe_entry(w) for w in want if w not in got][:2]
-        extra = [describe_entry(g) for g in got if g not in want][:2]
-        kind = 'print-order' if sorted(map(repr, got)) == sorted(map(repr, want)) else 'print-roundtrip'
-        probs.append((kind, why + (f'\n  not read back: {missing}' if missing else '')
-                      + (f'\n  not selected: {extra}' if extra else '')
-                      + (f'\n  reload errors: {rec["reload_errors"][:3]}' if rec['reload_errors'] else '')))
-    if 'loader' in rec and rec['loader'] != [rec['table_entries'][i] for i in selected_idx]:
-        lw = [rec['table_entries'][i] for i in selected_idx]
-        missing = [describe_entry(w) for w in lw if w not in rec['loader']][:2]
-        extra = [describe_entry(g) for g in rec['loader'] if g not in lw][:2]
-        probs.append(('print-roundtrip-loader', f'loader.load_string of the unfiltered PRINT: {len(rec["loader"])} '
-                      f'directives for {len(lw)}; not read back: {missing}; not selected: {extra}; '
-                      f'errors: {rec["loader_errors"][:3]}'))
+    book_classes = set()
+    for cls, why in compare_directives(want, got, rec['reload_errors']):
+        book_classes.add(cls)
+        probs.append((f'print-roundtrip:{cls}', why))
+    if 'loader' in rec:
+        for cls, why in compare_directives([rec['table_entries'][i] for i in selected_idx], rec['loader'],
+                                           rec['loader_errors']):
+            if cls not in book_classes:
+                probs.append((f'print-loader:{cls}', why))
     if 'oracle' in rec:
         o = [i for i, b in enumerate(rec['oracle']) if b]
         if o != list(selected_idx):
@@ -1095,12 +1138,13 @@ def judge_print(rec, selected_idx):
 
 
 def _same_modulo_booking(a, b):
-    """the unbooked directive of a booking error against the booked original: same date, narration, accounts"""
+    """the directive attached to a booking error (unbooked, or emptied) against the booked original:
+    same date, flag, narration, tags, links, payee (the printer drops an empty payee: known finding)"""
     if type(a) is not type(b) or a.date != b.date:
         return False
     if isinstance(a, data.Transaction):
-        return (a.narration, a.payee, [p.account for p in a.postings]) == \
-               (b.narration, b.payee, [p.account for p in b.postings])
+        return (a.flag, a.narration, a.payee or None, a.tags, a.links) == \
+               (b.flag, b.narration, b.payee or None, b.tags, b.links)
     return False
 
 
@@ -1216,8 +1260,11 @@ def run(tier, rng):
     os.makedirs(TMP, exist_ok=True)
 
     # A
-    n_a, v = run_transform(5000 if thorough else 900, rng, cov)
+    import time
+    t0 = time.time()
+    n_a, v = run_transform(5000 if thorough else 700, rng, cov)
     violations += v
+    core.log(f'[C14] A transform: {n_a} statements, {time.time() - t0:.1f}s')
 
     # ledgers
     n_ledgers = 24 if thorough else 6
@@ -1241,7 +1288,7 @@ def run(tier, rng):
                       'generated_directives': dir_hist, 'features': dict(sorted(feat_hist.items()))}
 
     # B / C: split each ledger's statements into chunks so that the pool is busy
-    per_ledger = 260 if thorough else 110
+    per_ledger = 260 if thorough else 84
     jobs = []
     for path, text in ledgers:
         specs = ledger_specs(rng, per_ledger, thorough)
@@ -1264,6 +1311,7 @@ def run(tier, rng):
                 key_lists.append((path, spec, r['keys']))
             for kind, why in r['problems']:
                 kinds.setdefault(kind, []).append((path, spec, why))
+    core.log(f'[C14] B statements: {n_b}, {time.time() - t0:.1f}s')
     # C: order of BALANCES rows, decided by the model's checker
     exprs = ['o_bool (sorted_keys ' + clist([f'({k[0]}, {cstr(k[1])})' for k in keys]) + ')' for _, _, keys in key_lists]
     sorted_res = core.coq_eval('c14c', ['Base.PyValue', 'Model.Statements'], exprs, shard=100)
@@ -1292,6 +1340,7 @@ def run(tier, rng):
         for k in range(0, len(idx), 6):
             jobs.append((path, idx[k:k + 6], True))
     results = core.pmap(check_ledger_print, jobs, chunksize=1) if len(jobs) >= 64 else [check_ledger_print(j) for j in jobs]
+    core.log(f'[C14] D print run: {time.time() - t0:.1f}s')
     flat = [(job[0], r) for job, recs in zip(jobs, results) for r in recs]
     judged = print_problems([r for _, r in flat])
     by_id = {id(r): path for path, r in flat}
@@ -1329,6 +1378,7 @@ def run(tier, rng):
                       'entries_not_compared_booking_context': n_excl,
                       'from_clauses': [fr for fr, _ in PRINT_FROM]}
 
+    core.log(f'[C14] D judged/shrunk: {time.time() - t0:.1f}s')
     cov['evaluations'] = n_a + n_b + n_d + len(key_lists)
     cov['distinct_nontrivial'] = cov['A_transform']['distinct_results'] + len(class_hist) + n_d
     cov['traces_validated_against_impl'] = n_a + n_d
